@@ -253,7 +253,7 @@ pub fn gen_script(rng: &mut Rng, spec: &WorldSpec, built: &BuiltWorld, cfg: &str
         let nops = nops_hint;
         for _ in 0..nops {
             let store = rng.below(n_slots);
-            match rng.weighted(&[50, 18, 8, 10, 8, 3, 3, 6, 5, 2]) {
+            match rng.weighted(&[50, 18, 8, 10, 8, 3, 3, 6, 5, 2, 5]) {
                 0 => {
                     // tokenize
                     let t = rng.below(ntok);
@@ -541,6 +541,15 @@ pub fn gen_script(rng: &mut Rng, spec: &WorldSpec, built: &BuiltWorld, cfg: &str
                     };
                     let e = dict.grammar().pos_list.get(id).cloned();
                     ops.push(json!({"op":"pos_of","id":id,"expect":e}));
+                }
+                10 => {
+                    // an iterator kept alive across later calls (the list may be refilled through out= meanwhile):
+                    // whatever it yields afterwards must be a usable morpheme of the list
+                    if rng.chance(1, 2) {
+                        ops.push(json!({"op":"iter_hold","list":rng.below(n_slots),"consume":rng.below(4)}));
+                    } else {
+                        ops.push(json!({"op":"iter_resume","list":rng.below(n_slots)}));
+                    }
                 }
                 _ => {
                     // misuse that must raise, not crash
